@@ -398,7 +398,8 @@ def setEnvironmentVariable (e : PEnv) (k v : Str) : PEnv × Bool :=
   else if v.isEmpty then (envRemove k e, true)
   else ((k, v) :: envRemove k e, true)
 
-/-- `Process::getEnvironmentVariable(name, defaultValue)` -/
+/-- `Process::getEnvironmentVariable(name, defaultValue)` for a valid name (getenv of a name containing `=`
+    is the C library's business) -/
 def getEnvironmentVariable (e : PEnv) (k d : Str) : Str :=
   match e.find? (fun kv => kv.1 == k) with
   | some kv => kv.2
